@@ -8,7 +8,8 @@ Obs == ndJsonDeserialize("obs.ndjson")
 C == Cert("A")       \* the verifying certificate, by symmetry
 LiftSigner(o, s) == [sid |-> IF s.sidmatch THEN C.sid ELSE "X", sigKey |-> IF s.sigvalid THEN C.key ELSE "kx",
                      sigOver |-> "attrs_as_encoded", attrs |-> IF s.attrs THEN "present" ELSE "none",
-                     ctattr |-> "absent", md |-> IF s.mdmatch THEN "m1" ELSE "junk", order |-> "canonical"]
+                     ctattr |-> "absent", md |-> IF s.mdmatch THEN "m1" ELSE "junk", order |-> "canonical",
+                     alg |-> "sha256", unauth |-> "none"]      \* (sigvalid is measured as an RSA-SHA256 check; unauthenticated attributes play no part in the rule)
 Lift(o) == [ct |-> "data", content |-> IF o.content THEN "m1" ELSE "none",
             signers |-> [i \in 1..Len(o.signers) |-> LiftSigner(o, o.signers[i])]]
 Holds(o) == o.parsed /\ RFCVerify(Lift(o), C)
